@@ -33,7 +33,7 @@ def phase_array(draw, ndim=None):
     nd = draw(st.integers(1, 2)) if ndim is None else ndim
     shape = [draw(st.integers(1, 5)) for _ in range(nd)]
     n = int(np.prod(shape))
-    mode = draw(st.sampled_from(["near_ties", "near_ties", "lanes", "mixed", "ties"]))
+    mode = draw(st.sampled_from(["near_ties", "near_ties", "lanes", "mixed", "ties", "near_half", "near_half"]))
     big = draw(st.sampled_from([0, 1, 10**6, 2**40, 10**15, 2**51, -(2**50), -(10**15), 3]))
     counts, fracs = [], []
     base_f = draw(st.floats(-0.4, 0.4))
@@ -43,6 +43,11 @@ def phase_array(draw, ndim=None):
         elif mode == "near_ties":
             c = big
             f = base_f + draw(st.integers(-8, 8)) * 2.0 ** draw(st.sampled_from([-52, -51, -50, -45, -40, -30]))
+        elif mode == "near_half":
+            # fractions within a few ulps of +-1/2 (an ulp there is 2^-54): the single-double value of count + fraction rounds up to the next
+            # half cycle, and the ordering rests on what is left over
+            c = big if abs(big) < 2**40 else 4
+            f = draw(st.sampled_from([-1, 1])) * (0.5 - draw(st.integers(0, 12)) * 2.0**-54)
         elif mode == "lanes":
             # rows/columns of very different magnitude, sub-ulp near ties within a lane
             lane = (i // shape[-1]) if nd == 2 else 0
@@ -119,14 +124,12 @@ def run_cmp(case, stt):
     rv, r2v = np.asarray(r).ravel(), np.asarray(r2).ravel()
     check(rv.dtype == bool and len(rv) == n, "comparison result dtype/shape {} {}", rv.dtype, np.shape(r))
     for w, rr in (("np.<ufunc>(phase, other)", r3), ("np.<swapped ufunc>(other, phase)", r4)):
-        check(np.array_equal(np.asarray(rr).ravel(), rv) or any(0 < abs(x - y) < TWO52 for x, y in zip(ea, eb)),
+        check(np.array_equal(np.asarray(rr).ravel(), rv),
               "{} disagrees with the operator form of phase {} {}: {} vs {}", w, opn, kind, np.asarray(rr).ravel().tolist(), rv.tolist())
     hard = 0
     for x, y, g, g2 in zip(ea, eb, rv, r2v):
         d = x - y
-        if d != 0 and abs(d) < TWO52:
-            continue
-        want = CMP[opn](x, y)
+        want = CMP[opn](x, y)  # (exact: two phases, however close, are two numbers)
         check(bool(g) == want, "{} {} {} evaluates to {} (exact difference {:.3g} cycles)", _fmt(x), opn, _fmt(y), bool(g), float(d))
         check(bool(g2) == want, "swapped comparison disagrees for {} {} {}", _fmt(x), opn, _fmt(y))
         if d != 0 and abs(d) < abs(x) * F(1, 2**52):
@@ -240,9 +243,9 @@ def run_red(case, stt):
         for g, (ix, lane) in zip(got, L):
             lo, hi = min(lane), max(lane)
             if base == "min":
-                check(g - lo <= TWO52 and any(g == v for v in lane), "{}: lane {} gives {} but the exact minimum is {}", what, ix, _fmt(g), _fmt(lo))
+                check(g == lo, "{}: lane {} gives {} but the exact minimum is {}", what, ix, _fmt(g), _fmt(lo))
             elif base == "max":
-                check(hi - g <= TWO52 and any(g == v for v in lane), "{}: lane {} gives {} but the exact maximum is {}", what, ix, _fmt(g), _fmt(hi))
+                check(g == hi, "{}: lane {} gives {} but the exact maximum is {}", what, ix, _fmt(g), _fmt(hi))
             else:
                 check(abs(g - (hi - lo)) <= 3 * TWO52, "{}: lane {} gives {} but max - min is {}", what, ix, _fmt(g), _fmt(hi - lo))
             srt = sorted(lane)
@@ -257,9 +260,9 @@ def run_red(case, stt):
             check(0 <= int(i) < len(lane), "{}: index {} out of range", what, i)
             lo, hi = min(lane), max(lane)
             if base == "argmin":
-                check(lane[int(i)] - lo <= TWO52, "{}: lane {} -> index {} holding {} but the exact minimum is {}", what, ix, int(i), _fmt(lane[int(i)]), _fmt(lo))
+                check(lane[int(i)] == lo, "{}: lane {} -> index {} holding {} but the exact minimum is {}", what, ix, int(i), _fmt(lane[int(i)]), _fmt(lo))
             else:
-                check(hi - lane[int(i)] <= TWO52, "{}: lane {} -> index {} holding {} but the exact maximum is {}", what, ix, int(i), _fmt(lane[int(i)]), _fmt(hi))
+                check(hi == lane[int(i)], "{}: lane {} -> index {} holding {} but the exact maximum is {}", what, ix, int(i), _fmt(lane[int(i)]), _fmt(hi))
             srt = sorted(lane)
             if len(srt) > 1 and 0 < (srt[1] - srt[0] if base == "argmin" else srt[-1] - srt[-2]) < max(abs(lo), abs(hi)) * F(1, 2**52):
                 hard += 1
@@ -273,7 +276,7 @@ def run_red(case, stt):
         for (ix, lg), (_, le) in zip(Lg, Le):
             check(sorted(lg) == sorted(le), "{}: lane {} is not a permutation of the input", what, ix)
             for x, y in zip(lg, lg[1:]):
-                check(y - x >= -TWO52, "{}: lane {} not in non-decreasing order: {} before {}", what, ix, _fmt(x), _fmt(y))
+                check(y - x >= 0, "{}: lane {} not in non-decreasing order: {} before {}", what, ix, _fmt(x), _fmt(y))
             s = sorted(le)
             hard += any(0 < y - x < max(abs(x), abs(y)) * F(1, 2**52) for x, y in zip(s, s[1:]))
     else:
@@ -283,14 +286,14 @@ def run_red(case, stt):
             check(sorted(idx.tolist()) == list(range(len(lane))), "{}: not a permutation", what)
             seq = [lane[i] for i in idx]
             for x, y in zip(seq, seq[1:]):
-                check(y - x >= -TWO52, "{}: order {} before {}", what, _fmt(x), _fmt(y))
+                check(y - x >= 0, "{}: order {} before {}", what, _fmt(x), _fmt(y))
         else:
             check(idx.shape == shape, "{}: shape {}", what, idx.shape)
             taken = np.take_along_axis(E, idx, axis=axis)
             for (ix, lg), (_, li) in zip(lanes(taken), lanes(idx.astype(object))):
                 check(sorted(int(v) for v in li) == list(range(len(li))), "{}: lane {} not a permutation", what, ix)
                 for x, y in zip(lg, lg[1:]):
-                    check(y - x >= -TWO52, "{}: lane {} order {} before {}", what, ix, _fmt(x), _fmt(y))
+                    check(y - x >= 0, "{}: lane {} order {} before {}", what, ix, _fmt(x), _fmt(y))
         s = sorted(E.ravel())
         hard += any(0 < y - x < max(abs(x), abs(y)) * F(1, 2**52) for x, y in zip(s, s[1:]))
     stt.nt(hard > 0)
@@ -329,20 +332,20 @@ def run_red_long(case, stt):
     if fn in ("min", "max", "ptp"):
         g = O.phase_fraction(r)
         want = {"min": lo, "max": hi, "ptp": hi - lo}[fn]
-        check(abs(g - want) <= (3 * TWO52 if fn == "ptp" else TWO52), "{} of {} phases gives {} but exactly {}", fn, n, _fmt(g), _fmt(want))
+        check(abs(g - want) <= (3 * TWO52 if fn == "ptp" else 0), "{} of {} phases gives {} but exactly {}", fn, n, _fmt(g), _fmt(want))
     elif fn in ("argmin", "argmax"):
         i = int(r)
-        check(abs(ex[i] - (lo if fn == "argmin" else hi)) <= TWO52, "{} of {} phases -> index {} holding {}, exact extreme {}", fn, n, i, _fmt(ex[i]),
+        check(ex[i] == (lo if fn == "argmin" else hi), "{} of {} phases -> index {} holding {}, exact extreme {}", fn, n, i, _fmt(ex[i]),
               _fmt(lo if fn == "argmin" else hi))
     elif fn == "sort":
         g = O.phase_fractions(r)
-        check(len(g) == n and all(b - a >= -TWO52 for a, b in zip(g, g[1:])), "sort of {} phases is not non-decreasing", n)
+        check(len(g) == n and all(b - a >= 0 for a, b in zip(g, g[1:])), "sort of {} phases is not non-decreasing", n)
         check(sorted(g) == sorted(ex), "sort of {} phases is not a permutation of the input", n)
     else:
         idx = np.asarray(r)
         check(sorted(idx.tolist()) == list(range(n)), "argsort of {} phases is not a permutation", n)
         seq = [ex[i] for i in idx]
-        check(all(b - a >= -TWO52 for a, b in zip(seq, seq[1:])), "argsort of {} phases does not order them", n)
+        check(all(b - a >= 0 for a, b in zip(seq, seq[1:])), "argsort of {} phases does not order them", n)
     stt.nt()
     stt.label("fn_" + fn)
 
